@@ -40,7 +40,7 @@ m = {
     }],
     "checks": checks,
     "not_applicable": na,
-    "notes": "Static analysis only: every verdict is computed from /repo's current working tree as loaded by go/packages; nothing from /repo is compiled to a binary or executed. All claims are level 'other': each check decides named structural necessary conditions of its property (listed in evidence coverage.explanation and DESIGN.md Part 3) and states what it does not decide.",
+    "notes": "Static analysis only: every verdict is computed from /repo's current working tree as loaded by go/packages; nothing from /repo is compiled to a binary or executed. All claims are level 'other': each check decides named structural necessary conditions of its property (listed in evidence coverage.explanation and DESIGN.md Part 3, Part 6 and Appendix D) and states what it does not decide.",
 }
 json.dump(m, open(os.path.join(root, "MANIFEST.json"), "w"), indent=1)
 print("checks:", [c["property_id"] for c in checks], "na:", [n["property_id"] for n in na])
